@@ -344,7 +344,17 @@ func (ev *Ev) specCall(x *ast.CallExpr) Value {
 		}
 		return boolV(and(conj...))
 	case "typeIs":
-		return boolV("true")
+		// typeIs(x, T): the dynamic type of the object x refers to is T (known for objects allocated by composite
+		// literals / new in verified code; otherwise unconstrained)
+		if len(x.Args) != 2 {
+			return ev.errorf(x.Pos(), "typeIs(x, T)")
+		}
+		v := ev.expr(x.Args[0])
+		t := ev.resolveType(x.Args[1])
+		if t == nil || v.S != SRef {
+			return ev.errorf(x.Pos(), "typeIs: need a reference and a type")
+		}
+		return boolV(app("=", app(u.dynTypeFn(), v.T), u.dynTypeID(t)))
 	}
 	// spec function?
 	if name != "" {
